@@ -20,6 +20,10 @@ def run(tier, seed, scale):
     phases = [
         Phase("rel-hot", "c04", "rel", 280000 if q else 3000000, procs=8 if q else 12, min_nontrivial=20000),
         Phase("rel-2cpu", "c04", "rel", 20000 if q else 300000, procs=2 if q else 4, cpus=2),
+        # store-buffer windows need raw volume and tight alignment, not delays
+        Phase("rel-noperturb", "c04", "rel", 60000 if q else 1000000, procs=2 if q else 6, args=["--perturb", "0"]),
+        Phase("rel-sb-litmus", "c04", "rel", 6000000 if q else 60000000, procs=4 if q else 8, args=["--mode", "sb"]),
+        Phase("dbg-sb-litmus", "c04", "dbg", 1000000 if q else 10000000, procs=1 if q else 4, args=["--mode", "sb"]),
         Phase("dbg-hot", "c04", "dbg", 40000 if q else 600000, procs=3 if q else 6),
         Phase("tsan", "c04", "tsan", 3000 if q else 60000, procs=3 if q else 8, timeout=1500),
     ]
@@ -27,7 +31,10 @@ def run(tier, seed, scale):
     h = chk.hooks
     chk.require(h.get("91", {}).get("h", [0, 0])[1] > 50, "fewer than 50 binds took the locked slow path (bind overlapping a propagation)")
     chk.require(h.get("92", {}).get("n", 0) > 1000, "fewer than 1000 propagations observed")
+    chk.require(chk.stats.get("sb_child_found_parent_cancelled", 0) > 10000 and chk.stats.get("sb_child_body_ran_before_cancel", 0) > 10000,
+                "store-buffer litmus did not see both orders of bind vs cancel often enough")
     chk.extra["windows"] = {
+        "sb_litmus[child_bound_first,cancel_first]": [chk.stats.get("sb_child_body_ran_before_cancel", 0), chk.stats.get("sb_child_found_parent_cancelled", 0)],
         "binds[fast,slow_locked_path]": h.get("91", {}).get("h", [0] * 8)[:2],
         "propagations": h.get("92", {}).get("n", 0),
         "per_thread_lists_walked": h.get("93", {}).get("n", 0),
